@@ -8,6 +8,8 @@ import LalrpopModel.Model.Proto
       → `ok`            (loads the tables used by the following `run` lines)
   run fail=<n|-> start=<int> input=<item,item,…>      item = l:kind:r (kind `-` = no index) | E<id>
       → `ok <tree> pulled=<n> acts=<m> trace=<p.p.…>` | `err <perr> pulled=… acts=… trace=…` | `panic` | `budget`
+  validate | validate2 | validate3     → `valid` | `invalid V<k>-…` (first failing clause; `validate3` = validate + V6 + V7)
+  v7min                                → least fuel passing V7, or `-`
 -/
 open LalrpopModel LalrpopModel.LR LalrpopModel.Proto
 
@@ -181,6 +183,22 @@ def firstFailing2 (G : Grammar) (T : Tables) (A : Automaton) (ann : Ann) : Strin
   else if !checkStartEof G T then "invalid V6-start-eof"
   else "valid"
 
+/-- `validate3`: the clauses of `validate`, then V6 (start production reduced on EOF only) and V7
+    (the reduce loops terminate: `checkTerm` with fuel `termFuel`), the hypotheses of the C08
+    termination theorems (`Props/LRTermThms.lean`); V5 is not needed there -/
+def firstFailing3 (G : Grammar) (T : Tables) (A : Automaton) (ann : Ann) : String :=
+  let r := firstFailing G T A ann
+  if r != "valid" then r
+  else if !checkStartEof G T then "invalid V6-start-eof"
+  else if !checkTerm T (termFuel T) then "invalid V7-termination"
+  else "valid"
+
+/-- `v7min`: the least fuel with which V7 holds (`-` if there is none up to `termFuel`) -/
+def v7min (T : Tables) : String :=
+  match (List.range (termFuel T + 1)).find? (fun F => checkTerm T F) with
+  | some F => toString F
+  | none => "-"
+
 def encCheck (G : Grammar) (T : Tables) (A : Automaton) : String :=
   if encodeAction G.nTerm A != T.action then "diff action"
   else if encodeEof A != T.eofAction then "diff eof"
@@ -277,6 +295,10 @@ def stepLine (S : Sess) (line : String) : Sess × String :=
   | ["validate2"] =>
     let ann := computeAnn S.G S.T S.A.states.length
     (S, firstFailing2 S.G S.T S.A ann)
+  | ["validate3"] =>
+    let ann := computeAnn S.G S.T S.A.states.length
+    (S, firstFailing3 S.G S.T S.A ann)
+  | ["v7min"] => (S, v7min S.T)
   | ["enccheck"] => (S, encCheck S.G S.T S.A)
   | "run" :: ws => (S, doRun S.T ws)
   | ["member", ks] =>
